@@ -190,6 +190,8 @@ def run(ctx, rep):
 
         def cls_cac(fn, og, bi, si, term):
             if term is not None:
+                if (term.callee or '').endswith('FromResidual::from_residual'):
+                    return ('Err', 'propagated with `?`')
                 return ('Unknown', 'call')
             rv = fn.blocks[bi].stmts[si].rv
             if rv.rv == 'agg' and rv.d.get('adt', '').endswith('result::Result'):
